@@ -248,7 +248,9 @@ Proof. vm_compute. reflexivity. Qed.
 (* Intervals are handed to the TimeoutManager as TimeInterval structs (a struct timeval).  For every interval built
    with the constructors and operators of ola::TimeInterval - from microseconds (Set), from (seconds, microseconds),
    from milliseconds (the SelectServer overloads), operator+ (TimerAdd), operator*(unsigned) - out of arguments that
-   respect the constructors' contracts (non-negative, microsecond field < 10^6) the struct is normalised and denotes
+   respect the constructors' contracts (non-negative; the microsecond argument of the (sec, usec) constructor may be
+   ANY non-negative value, also 10^6 or more, since fix 04; negative arguments are outside the contract: C division
+   would leave a negative tv_usec) the struct is normalised and denotes
    exactly the arithmetic value (TimeVal.idenote); TimerAdd of normalised values (deadline = now + interval) and
    timercmp (deadline <= now) agree with +, <= on microseconds.  Hence the microsecond model of Model.v. *)
 Theorem c16_timeval :
@@ -258,6 +260,17 @@ Theorem c16_timeval :
   (forall a b, tv_norm a -> tv_norm b -> (tv_leb a b = true <-> (tv_us a <= tv_us b)%Z)).
 Proof. exact (conj ieval_ok (conj tv_add_ok (conj tv_mul_ok tv_leb_ok))). Qed.
 Print Assumptions c16_timeval.
+
+(* witness of the defect repaired by fix 04: with the old constructor (arguments stored as given) the 2.5 s interval
+   TimeInterval(0, 2500000) registered at time 0 gives the deadline {1 s, 1500000 us}, which timercmp already finds
+   reached at 2.0 s; with the fixed constructor the deadline is {2 s, 500000 us}, reached at 2.5 s and not before. *)
+Example c16_timeinterval_before_fix :
+  let old_deadline := tv_add (mkTv 0 0) (tv_of_pair_before_fix 0 2500000) in
+  let new_deadline := tv_add (mkTv 0 0) (tv_of_pair 0 2500000) in
+  old_deadline = mkTv 1 1500000 /\ tv_leb old_deadline (mkTv 2 0) = true /\
+  new_deadline = mkTv 2 500000 /\ tv_leb new_deadline (mkTv 2 0) = false /\ tv_leb new_deadline (mkTv 2 499999) = false /\
+  tv_leb new_deadline (mkTv 2 500000) = true.
+Proof. vm_compute. repeat split; reflexivity. Qed.
 
 Example c16_timeval_ex :
   tv_us (ieval (IMul (IUs 200000) 20)) = 4000000%Z /\ ieval (IMul (IUs 200000) 20) = mkTv 4 0 /\
